@@ -9,7 +9,10 @@ ID = 'C15'
 LEVEL = 'proof'
 CLUSTER = 'B'
 GEN_UNITS = ['Consts']
-RULE = ('Histories of 5-25 steps over a growing family of at most 6 database objects (pdb2sql, interface, many2sql): each step is a '
+RULE = ('Histories of 5-25 steps over a growing family of at most 6 database objects (pdb2sql, interface, many2sql); half of the initial '
+        'objects are constructed with the non-default options fix_chainID=True, verbose=True on inputs whose chains are C,D / 1,A / X / '
+        'B,A,D / c,C,Z (renamed at load; objects derived from them must keep the chains they were given: later renames through update / '
+        'update_column, sub-selections of chain subsets, interface(db), many2sql([db, ...])); each step is a '
         'modification of one object (update / update_xyz / update_column / add_column / _fix_chainID, on any of its tables) or a '
         'derivation from live objects (db(**selection), interface(db), many2sql([db, ...])). After EVERY step the content of EVERY '
         'table of EVERY live object (SELECT * through its own connection) and its column names are compared with the model world '
@@ -45,12 +48,34 @@ class Track:
         self.kind, self.names, self.tables, self.extras = kind, names, [[list(r) for r in t] for t in tables], []
 
 
+CHAINSETS = [['A', 'B'], ['C', 'D'], ['1', 'A'], ['X'], ['B', 'A', 'D'], ['c', 'C', 'Z']]
+
+
+def start_table(rng, n):
+    rows = rand_table(rng, n)
+    chains = rng.choice(CHAINSETS)
+    for i, r in enumerate(rows):
+        r[4] = chains[(i * len(chains)) // max(n, 1)] if rng.random() < 0.8 else rng.choice(chains)
+    return rows
+
+
+def fix_rows(rows):
+    ids = sorted(set(r[4] for r in rows))
+    for r in rows:
+        r[4] = 'ABCDEFGHIJKLMNOPQRSTUVWXYZ'[ids.index(r[4])]
+
+
 def gen_world(rng, nsteps):
     n0 = rng.choice([3, 5, 8, 12])
-    objs = [Track('single', ['atom'], [rand_table(rng, n0)])]
+    objs = [Track('single', ['atom'], [start_table(rng, n0)])]
     if rng.random() < 0.4:
-        objs.append(Track('single', ['atom'], [rand_table(rng, rng.choice([2, 4, 9]))]))
-    init = [{'kind': 'single', 'db': db_json([('atom', t.tables[0])])} for t in objs]
+        objs.append(Track('single', ['atom'], [start_table(rng, rng.choice([2, 4, 9]))]))
+    # sources constructed with the non-default options fix_chainID=True, verbose=True: the chains are renamed at load
+    # (the model applies `_fix_chainID` as a first step); objects derived from them must NOT be renamed again
+    init = [{'kind': 'single', 'db': db_json([('atom', t.tables[0])]), 'fix': rng.random() < 0.5} for t in objs]
+    for t, o in zip(objs, init):
+        if o['fix']:
+            fix_rows(t.tables[0])
     ops = []
     for _ in range(nsteps):
         u = rng.random()
@@ -120,6 +145,10 @@ def gen_world(rng, nsteps):
                 if len(set(x for x, _ in kws)) < len(kws):
                     kws = kws[:1]
                 kws = [(a, b) for a, b in kws if (a[3:] if a.startswith('no_') else a) in COLNAMES]
+                if rng.random() < 0.45:
+                    present = sorted(set(r[4] for r in o.tables[0]))
+                    sub = rng.sample(present, rng.randrange(1, len(present) + 1)) if present else ['A']
+                    kws = [(rng.choice(['chainID', 'chainID', 'no_chainID']), sub)]
                 ops.append({'w': 'sub', 'k': k, 'kw': jkw(kws)})
                 tabs = o.tables[:1] if o.kind == 'single' else o.tables
                 new = [[list(r[:13]) + [0] for i, r in enumerate(t) if H.py_holds(t, i, kws, [])] for t in tabs]
@@ -161,12 +190,28 @@ def search_cases(ctx):
     return out
 
 
+def nfix(c):
+    return sum(1 for o in c['objs'] if o.get('fix'))
+
+
 def driver_line(c):
     def strip(o):
         if o['w'] == 'modify':
             return {'w': 'modify', 'k': o['k'], 'op': {k: v for k, v in o['op'].items() if k not in ('carrier', 'icarrier', 'kind')}}
         return o
-    return {'op': 'world', 'objs': c['objs'], 'ops': [strip(o) for o in c['ops']]}
+    # construction with fix_chainID=True = `_fix_chainID` applied to the freshly loaded table
+    lead = [{'w': 'modify', 'k': k, 'op': {'name': 'fix_chainID'}} for k, o in enumerate(c['objs']) if o.get('fix')]
+    return {'op': 'world', 'objs': [{'kind': o['kind'], 'db': o['db']} for o in c['objs']], 'ops': lead + [strip(o) for o in c['ops']]}
+
+
+def lead_ops(c):
+    return [{'w': 'load(fix_chainID=True)'}] if nfix(c) else []
+
+
+def aligned_steps(c, answers):
+    """the driver answers one record per leading `_fix_chainID`; the objects are observed once, after all were loaded"""
+    k = nfix(c)
+    return answers[k - 1:] if k > 1 else answers
 
 
 def observe(objs):
@@ -181,10 +226,17 @@ def impl(ctx, c):
     objs = []
     for o in c['objs']:
         rows = [[unjval(v) for v in r] for r in o['db']['tabs'][0]['rows']]
-        db = build(rows)
-        B.check_parse(db, rows, tn='atom')
+        if o.get('fix'):
+            db = call(lambda: build(rows, fix_chainID=True, verbose=True))
+            if is_err(db):
+                raise RuntimeError(f'construction with fix_chainID=True raised {db}')
+        else:
+            db = build(rows)
+            B.check_parse(db, rows, tn='atom')
         objs.append(db)
     steps = []
+    if nfix(c):
+        steps.append({'out': 'ok', 'objs': observe(objs)})
     for o in c['ops']:
         if o['w'] == 'modify':
             r = call(lambda: H.apply_op(objs[o['k']], o['op']))
@@ -201,6 +253,9 @@ def impl(ctx, c):
 
 
 def agree_model(c, out, model):
+    model = aligned_steps(c, model)
+    ops = lead_ops(c) + c['ops']
+    c = dict(c, ops=ops)
     for k, (a, m) in enumerate(zip(out, model)):
         if isinstance(m['out'], str) and m['out'].startswith('ERR:UNMODELLED'):
             return 'discard'
@@ -215,6 +270,10 @@ def agree_model(c, out, model):
 
 
 def agree_spec(c, out, spec):
+    if nfix(c) and any(s['out'] == 'outside' for s in spec[:nfix(c)]):
+        return True
+    spec = aligned_steps(c, spec)
+    c = dict(c, ops=lead_ops(c) + c['ops'])
     prev = [{'tabs': [{'rows': o['db']['tabs'][0]['rows']}], 'colnames': COLNAMES} for o in c['objs']]
     for k, (a, s) in enumerate(zip(out, spec)):
         what = f'step {k} ({c["ops"][k]["w"]})'
@@ -238,7 +297,7 @@ def agree_spec(c, out, spec):
 
 def nontrivial_key(c, out):
     seen_derive = False
-    for o, st in zip(c['ops'], out):
+    for o, st in zip(lead_ops(c) + c['ops'], out):
         if o['w'] != 'modify' and st['out'] == 'ok':
             seen_derive = True
         elif o['w'] == 'modify' and seen_derive and st['out'] == 'ok':
@@ -252,7 +311,7 @@ def distribution(recs):
     for r in recs:
         c = r['case']
         nsteps[len(c['ops'])] = nsteps.get(len(c['ops']), 0) + 1
-        for o, st in zip(c['ops'], r['impl'] if isinstance(r['impl'], list) else []):
+        for o, st in zip(lead_ops(c) + c['ops'], r['impl'] if isinstance(r['impl'], list) else []):
             k = o['w'] + (':' + o['op']['name'] if o['w'] == 'modify' else '')
             kinds[k] = kinds.get(k, 0) + 1
             outs[st['out']] = outs.get(st['out'], 0) + 1
@@ -262,5 +321,7 @@ def distribution(recs):
             for o in r['impl'][-1]['objs']:
                 t = len(o['tabs'])
                 classes['%d table(s)' % t] = classes.get('%d table(s)' % t, 0) + 1
-    return {'history_lengths': dict(sorted(nsteps.items())), 'steps_by_kind': dict(sorted(kinds.items())), 'step_outcomes': outs,
+    fixed = {'sources loaded with fix_chainID=True, verbose=True': sum(nfix(r['case']) for r in recs),
+             'default sources': sum(len(r['case']['objs']) - nfix(r['case']) for r in recs)}
+    return {'initial_objects': fixed, 'history_lengths': dict(sorted(nsteps.items())), 'steps_by_kind': dict(sorted(kinds.items())), 'step_outcomes': outs,
             'live_objects_at_end': dict(sorted(nobj.items())), 'objects_by_table_count': classes}
